@@ -51,7 +51,9 @@ def _slice_bounds(cx, sl, extent):
             return min(v, extent)
         if isinstance(v, int) and v == 0:
             return 0
-        # symbolic: clamp
+        # symbolic: clamp (resolved when the path condition already decides it, which keeps terms small)
+        if cx.valid(T.land(T.ge(v, 0), T.le(v, extent))):
+            return v
         c = T.ite(T.gt(v, extent), extent, v)
         if T.is_z3(c):
             c = T.ite(T.lt(c, 0), 0, c)
